@@ -10,6 +10,7 @@ import (
 	"fmt"
 	"os"
 	"path/filepath"
+	"regexp"
 	"runtime"
 	"sort"
 	"strconv"
@@ -128,6 +129,11 @@ func matchKnown(fs []finding, prop, sig string) *finding {
 		if f.Signature == sig || (strings.HasSuffix(f.Signature, "*") && strings.HasPrefix(sig, strings.TrimSuffix(f.Signature, "*"))) {
 			return f
 		}
+		if strings.HasPrefix(f.Signature, "re:") {
+			if re, err := regexp.Compile(f.Signature[3:]); err == nil && re.MatchString(sig) {
+				return f
+			}
+		}
 	}
 	return nil
 }
@@ -225,6 +231,8 @@ func cmdCheck(args []string) int {
 				emit := ""
 				if j.idx < 3 {
 					emit = "tape,trace"
+				} else if spec.Race {
+					emit = "tape" // race reports are attached by the orchestrator, which needs the tape
 				}
 				o := runChild(childOpts{Bin: bin, Mode: "run", Case: j.kase, Tier: tier, Emit: emit, Timeout: childTimeout})
 				if o.Res == nil && !o.TimedOut {
@@ -367,8 +375,15 @@ func cmdCheck(args []string) int {
 			harness = append(harness, "violation without tape: "+s.Sig)
 			continue
 		}
-		okc := 0
-		for k := 0; k < 2; k++ {
+		okc, attempts := 0, 2
+		isRace := strings.HasPrefix(s.Sig, "race|")
+		if isRace {
+			// whether the race detector still holds the earlier access in its shadow memory depends on
+			// evictions the tape does not control: a race report must reproduce twice in six attempts,
+			// and one that never does is counted, not reported
+			attempts = 6
+		}
+		for k := 0; k < attempts && okc < 2; k++ {
 			o := runTape(b, spec, s.Tape, "", childTimeout, spec.Race)
 			if o.Res != nil && hasSig(o.Res, s.Sig) {
 				okc++
@@ -376,6 +391,10 @@ func cmdCheck(args []string) int {
 		}
 		if okc < 2 {
 			unrepro++
+			if isRace {
+				agg.stats["race_reports_not_reproduced"]++
+				continue
+			}
 			harness = append(harness, fmt.Sprintf("violation %q from %s did not reproduce from its tape (%d/2)", s.Sig, s.FirstCase, okc))
 			continue
 		}
